@@ -14,6 +14,8 @@ type vEvent struct {
 	ar   AttachmentReader
 	data []byte
 	derr error
+	pcrc uint32 // the stored attachment CRC as ParsedCRC returns it (after the data was read)
+	perr error
 	pos  int64 // source position after the event
 }
 
@@ -26,7 +28,14 @@ func vLexEvents(src *vSource, opts *LexerOptions) ([]vEvent, error) {
 	o := *opts
 	o.AttachmentCallback = func(ar *AttachmentReader) error {
 		d, err := io.ReadAll(ar.Data())
-		evs = append(evs, vEvent{att: true, ar: *ar, data: d, derr: err, pos: src.pos})
+		ev := vEvent{att: true, ar: *ar, data: d, derr: err}
+		if err == nil {
+			ev.pcrc, ev.perr = ar.ParsedCRC()
+		} else {
+			ev.perr = err
+		}
+		ev.pos = src.pos
+		evs = append(evs, ev)
 		return nil
 	}
 	lex, err := NewLexer(src, &o)
@@ -62,6 +71,12 @@ func vEventsPrefix(got, ref []vEvent, partialAtt bool, label string) {
 				}
 			} else {
 				vAssert(len(g.data) == len(r.data) && vBytesEq(g.data, r.data), label+": attachment data unaltered")
+				vAssert(g.perr == nil, label+": stored attachment CRC readable")
+			}
+			// whenever the stored CRC is returned without an error it is the stored CRC (a short read or a cut inside
+			// its four bytes must not surface as a padded value)
+			if g.perr == nil && r.perr == nil {
+				vAssert(g.pcrc == r.pcrc, label+": stored attachment CRC unaltered")
 			}
 		} else {
 			vAssert(len(g.rec) == len(r.rec) && vBytesEq(g.rec, r.rec), label+": record content unaltered")
